@@ -209,3 +209,139 @@ func TestC15Stream(t *testing.T) {
 		}
 	}
 }
+
+// TestC15WriteTimeout: a write deadline expires part-way through a record of
+// the TCP variant (NoiseConn).  The caller then does what a net.Conn caller
+// does - it writes the part that was not reported as written - and, if that
+// is refused because the record is still pending, resumes with Flush.  The
+// reader must see every byte exactly once.
+func TestC15WriteTimeout(t *testing.T) {
+	dir := outDir(t)
+	f, err := os.Create(filepath.Join(dir, "c15wt.ndjson"))
+	if err != nil {
+		t.Fatal(err)
+	}
+	defer f.Close()
+	enc := json.NewEncoder(f)
+	const M = 65535
+	type wt struct{ size, cut int }
+	var cases []wt
+	for _, sz := range []int{1, 300, 5000, M, M + 1, 70000, 2*M + 10} {
+		for _, cut := range []int{0, 1, 17, 18, 19, 18 + sz/2, 18 + sz + 15, M + 34 + 5, M + 34 + 18 + 700} {
+			if cut < sz+34+((sz-1)/M)*34 {
+				cases = append(cases, wt{sz, cut})
+			}
+		}
+	}
+	for ci, c := range cases {
+		a, b := mitm.NewPair()
+		res := runMachines(defaultHs(), a, b)
+		if res.newErr != nil || res.cErr != nil || res.sErr != nil {
+			t.Fatalf("handshake: %v %v %v", res.newErr, res.cErr, res.sErr)
+		}
+		w, rd := mailbox.NewVerifNoiseConn(a, res.cm), mailbox.NewVerifNoiseConn(b, res.sm)
+		stream := streamOf(c.size + 100)
+		enc.Encode(map[string]any{"op": "new", "conn": "tcp", "scen": ci, "ws": []int{c.size, 100}, "bs": []int{70000}})
+		// the wire accepts `cut` bytes in total, then reports a timeout once
+		var plan []int
+		left := c.cut
+		for _, part := range []int{18, M + 16, 18, M + 16, 18, M + 16} {
+			if left >= part {
+				plan = append(plan, part)
+				left -= part
+			} else {
+				plan = append(plan, left)
+				break
+			}
+		}
+		a.SetPlan(plan)
+		n, err := w.Write(stream[:c.size])
+		es := ""
+		if err != nil {
+			es = "err"
+			var te mitm.TimeoutErr
+			if errors.As(err, &te) {
+				es = "timeout"
+			}
+		}
+		enc.Encode(map[string]any{"op": "write", "conn": "tcp", "len": c.size, "n": n, "err": es})
+		sent := n
+		if es == "timeout" {
+			// retry with what was not reported as written
+			n2, err2 := w.Write(stream[sent:c.size])
+			es2 := ""
+			if err2 != nil {
+				es2 = "err"
+				if errors.Is(err2, mailbox.ErrMessageNotFlushed) {
+					es2 = "notflushed"
+				}
+			}
+			enc.Encode(map[string]any{"op": "rewrite", "conn": "tcp", "len": c.size - sent, "n": n2, "err": es2})
+			sent += n2
+			if es2 == "notflushed" {
+				for k := 0; k < 4; k++ {
+					n3, err3 := w.Flush()
+					es3 := ""
+					if err3 != nil {
+						es3 = "err"
+					}
+					enc.Encode(map[string]any{"op": "flush", "conn": "tcp", "n": n3, "err": es3})
+					sent += n3
+					if err3 == nil {
+						break
+					}
+				}
+				if sent < c.size {
+					n4, err4 := w.Write(stream[sent:c.size])
+					es4 := ""
+					if err4 != nil {
+						es4 = "err"
+					}
+					enc.Encode(map[string]any{"op": "write", "conn": "tcp", "len": c.size - sent, "n": n4, "err": es4})
+					sent += n4
+				}
+			}
+		}
+		// a further, ordinary write
+		n5, err5 := w.Write(stream[c.size : c.size+100])
+		es5 := ""
+		if err5 != nil {
+			es5 = "err"
+		}
+		enc.Encode(map[string]any{"op": "write", "conn": "tcp", "len": 100, "n": n5, "err": es5})
+		total := sent + n5
+		// the reader: everything, exactly once
+		rdPos := 0
+		for rdPos < total {
+			buf := make([]byte, 70000)
+			type rres struct {
+				n   int
+				err error
+			}
+			rc := make(chan rres, 1)
+			go func() { n, err := rd.Read(buf); rc <- rres{n, err} }()
+			var rn int
+			var rerr error
+			select {
+			case x := <-rc:
+				rn, rerr = x.n, x.err
+			case <-time.After(3 * time.Second):
+				rerr = errors.New("blocked: Read does not return although written bytes are unread")
+				b.Close()
+			}
+			match := b2i(rerr == nil && rdPos+rn <= len(stream) && bytes.Equal(buf[:rn], stream[rdPos:rdPos+rn]))
+			es := ""
+			if rerr != nil {
+				es = rerr.Error()
+			}
+			enc.Encode(map[string]any{"op": "read", "conn": "tcp", "buf": len(buf), "n": rn, "err": es,
+				"match": match, "avail": total - rdPos})
+			if rerr != nil {
+				break
+			}
+			rdPos += rn
+		}
+		enc.Encode(map[string]any{"op": "end", "conn": "tcp", "written": total, "read": rdPos})
+	}
+}
+
